@@ -264,6 +264,12 @@ func ParseRealtime(content []byte, opts *ParseRealtimeOptions) (*Realtime, error
 	if opts.Extension == nil {
 		opts.Extension = extensions.NoExtension()
 	}
+	if e, ok := opts.Extension.(extensions.PerMessageExtension); ok {
+		// Use a copy of the options so that the caller's value is not modified.
+		optsCopy := *opts
+		optsCopy.Extension = e.ForMessage()
+		opts = &optsCopy
+	}
 	feedMessage := &gtfsrt.FeedMessage{}
 	if err := proto.Unmarshal(content, feedMessage); err != nil {
 		return nil, fmt.Errorf("failed to parse input as a GTFS Realtime message: %s", err)
